@@ -39,9 +39,49 @@ template <class Img> void pairs(const char* type) {
         }
     }
 }
+// ---- functors that carry state BY VALUE: the algorithms equal the row-major loop run with ONE functor object, whether or not the view is 1-D traversable ----
+struct SGen { int n = 0; gil::gray8_pixel_t operator()() { return gil::gray8_pixel_t((std::uint8_t)(n++)); } };
+struct SEach { int n = 0; void operator()(gil::gray8_pixel_t& p) { p[0] = (std::uint8_t)(p[0] + n++); } };
+struct STr1 { int n = 0; gil::gray8_pixel_t operator()(gil::gray8_pixel_t const& a) { return gil::gray8_pixel_t((std::uint8_t)(a[0] + n++)); } };
+struct STr2 { int n = 0; gil::gray8_pixel_t operator()(gil::gray8_pixel_t const& a, gil::gray8_pixel_t const& b) { return gil::gray8_pixel_t((std::uint8_t)(a[0] + 2 * b[0] + n++)); } };
+static void stateful() {
+    vt::Rng rng(A->seed * 5 + 29);
+    for (int w = 0; w <= 4; ++w) for (int h = 0; h <= 3; ++h) for (int shape = 0; shape < 3; ++shape) {
+        if (!mine()) continue;
+        // shape 0: contiguous image; 1: sub-view of a larger image; 2: rows padded by alignment
+        auto mk = [&](gil::gray8_image_t& img) { if (shape == 0) img.recreate(w, h); else if (shape == 1) img.recreate(w + 2, h + 2); else img.recreate(w, h, 8);
+                                                 for (auto& p : gil::view(img)) p[0] = (std::uint8_t)rng.below(100); };
+        auto vw = [&](gil::gray8_image_t& img) { return shape == 1 ? gil::subimage_view(gil::view(img), 1, 1, w, h) : gil::subimage_view(gil::view(img), 0, 0, w, h); };
+        const char* sn = shape == 0 ? "contiguous" : shape == 1 ? "subview" : "padded";
+        { gil::gray8_image_t d; mk(d); auto v = vw(d); gil::generate_pixels(v, SGen());
+          J("Stateful").str("algo", "generate").str("shape", sn).num("w", w).num("h", h).arr("s1", std::vector<long>{}).arr("s2", std::vector<long>{}).arr("out", flat(v)).num("retn", -1).emit(); }
+        { gil::gray8_image_t d; mk(d); auto v = vw(d); auto before = flat(v); auto r = gil::for_each_pixel(v, SEach());
+          J("Stateful").str("algo", "for_each").str("shape", sn).num("w", w).num("h", h).arr("s1", before).arr("s2", std::vector<long>{}).arr("out", flat(v)).num("retn", r.n).emit(); }
+        { gil::gray8_image_t a, d; mk(a); mk(d); auto va = vw(a); auto v = vw(d); auto r = gil::transform_pixels(va, v, STr1());
+          J("Stateful").str("algo", "transform1").str("shape", sn).num("w", w).num("h", h).arr("s1", flat(va)).arr("s2", std::vector<long>{}).arr("out", flat(v)).num("retn", r.n).emit(); }
+        { gil::gray8_image_t a, b, d; mk(a); mk(b); mk(d); auto va = vw(a); auto vb = vw(b); auto v = vw(d); auto r = gil::transform_pixels(va, vb, v, STr2());
+          J("Stateful").str("algo", "transform2").str("shape", sn).num("w", w).num("h", h).arr("s1", flat(va)).arr("s2", flat(vb)).arr("out", flat(v)).num("retn", r.n).emit(); }
+    }
+}
+// ---- equal_pixels of two views of ONE type that start at the same pixel and have the same size but walk the storage with different steps ----
+static void shared_origin() {
+    vt::Rng rng(A->seed * 7 + 31);
+    for (int w = 1; w <= 3; ++w) for (int h = 1; h <= 3; ++h) for (int variant = 0; variant < 2; ++variant) {
+        if (!mine()) continue;
+        gil::gray8_image_t img(3 * w + 3, 3 * h + 3);
+        for (auto& p : gil::view(img)) p[0] = variant == 0 ? (std::uint8_t)(1 + rng.below(200)) : (std::uint8_t)77;      // variant 1: constant image, the two walks see equal pixels
+        auto v2 = gil::subimage_view(gil::subsampled_view(gil::const_view(img), 2, 2), 0, 0, w, h);
+        auto v3 = gil::subimage_view(gil::subsampled_view(gil::const_view(img), 3, 3), 0, 0, w, h);
+        auto vx = gil::subimage_view(gil::subsampled_view(gil::const_view(img), 3, 2), 0, 0, w, h);
+        J("PixEq").str("how", "steps 2,2 vs 3,3").num("w", w).num("h", h).arr("p1", flat(v2)).arr("p2", flat(v3)).boolean("ret", gil::equal_pixels(v2, v3)).emit();
+        J("PixEq").str("how", "steps 2,2 vs 3,2").num("w", w).num("h", h).arr("p1", flat(v2)).arr("p2", flat(vx)).boolean("ret", gil::equal_pixels(v2, vx)).emit();
+        J("PixEq").str("how", "same view").num("w", w).num("h", h).arr("p1", flat(v2)).arr("p2", flat(v2)).boolean("ret", gil::equal_pixels(v2, v2)).emit();
+    }
+}
 int main(int argc, char** argv) {
     vt::Args args(argc, argv); A = &args; vt::install_handlers(); vt::T().open(args.out.c_str());
     vt::isolated([&] { pairs<gil::gray8_image_t>("gray8"); pairs<gil::rgb8_image_t>("rgb8"); pairs<gil::rgb8_planar_image_t>("rgb8_planar"); }, 300);
     vt::isolated([&] { pairs<gil::rgb16_image_t>("rgb16"); pairs<gil::rgba8_planar_image_t>("rgba8_planar"); pairs<gil::gray32f_image_t>("gray32f"); }, 300);
+    vt::isolated([&] { stateful(); shared_origin(); }, 300);
     J("End").num("events", vt::T().events).emit(); vt::T().close(); return 0;
 }
